@@ -327,6 +327,7 @@ type Env struct {
 	auditLatched bool   // an audit write failed and the process was not restarted
 	diskFaultRun bool   // this run injects disk-full calls
 	nLinks       int
+	stallSeen    bool // a slow audit write or sync happened in this run
 	hugeRun      bool // values beyond a mebibyte occur in this run
 	laxIno       uint64 // inode of the database file an operator gave a lax mode (0: none)
 	parkAudit    bool
